@@ -8,7 +8,7 @@
 use std::{
     fmt,
     hash::Hash,
-    ops,
+    mem, ops,
     sync::{PoisonError, TryLockError, TryLockResult},
 };
 
@@ -433,7 +433,13 @@ impl<T, L: Lock> Drop for SharedObservable<T, L> {
     fn drop(&mut self) {
         // Only close the state if there are no other clones of this
         // `SharedObservable`.
-        if Arc::strong_count(&self._num_clones) == 1 {
+        //
+        // Give up our clone marker and let `Arc::into_inner` decide: when several
+        // clones are dropped concurrently, it returns `Some` for exactly one of
+        // them, the last one. Checking `strong_count() == 1` before the marker is
+        // released would let two concurrent drops both see `2`, and nobody would
+        // ever close the state.
+        if Arc::into_inner(mem::take(&mut self._num_clones)).is_some() {
             // If there are no other clones, obtaining a read lock can't fail.
             L::read_noblock(&self.state).close();
         }
